@@ -356,7 +356,6 @@ def enum_cases(max_n=5, skip_redundant=False):
 
 def sub_par_exhaustive(rec, seed, shard, nshards, max_n=5, skip_redundant=False):
     total = 0
-    nt_total = 0
     rec.note("space", f"n=0..{max_n} x workers 0..8" + (f" (n={max_n}: workers 0..{max_n} and 8)" if skip_redundant else "") +
              " x every completion order reachable with that pool size x every failing subset")
     for idx, case in enum_cases(max_n, skip_redundant):
@@ -369,7 +368,6 @@ def sub_par_exhaustive(rec, seed, shard, nshards, max_n=5, skip_redundant=False)
             rec.violation(v.message, v.case, v.sig)
             return
         n = len(case["keys"])
-        nt_total += int(nt)
         labels = [f"n={n}", "workers<=1" if case["workers"] <= 1 else ("workers<n" if case["workers"] < n else "workers>=n")]
         if nt:
             labels.append("completion!=submission")
@@ -377,7 +375,7 @@ def sub_par_exhaustive(rec, seed, shard, nshards, max_n=5, skip_redundant=False)
             labels.append("failing")
         rec.case(nontrivial=nt, dig=None, labels=labels,
                  sample={"keys": case["keys"], "fails": case["fails"], "workers": case["workers"], "completion": order} if nt and idx % 997 == 0 else None)
-    rec.note("enumerated", total)
+    rec.note("enumerated_in_last_shard", total)
 
 
 # ---- sampled (n up to 7, free key/order_key/exception choice)
